@@ -524,6 +524,10 @@ long long c_voronoi(long long nrows, long long ncols,
         /* Get cell number for coordinates */
         idxcell = idxcells_area[i];
 
+        /* The cell has to be in the grid (no cell in an empty grid) */
+        if(idxcell<0 || idxcell>=nrows*ncols)
+            return GRID_ERROR + __LINE__;
+
         ierr = getcoord(nrows, ncols, xll, yll, csz, idxcell, xy);
         if(ierr>0)
             return GRID_ERROR + __LINE__;
